@@ -383,7 +383,7 @@ impl ListenerConnection {
 //@@ fn file=fe2o3-amqp/src/acceptor/connection.rs impl=`impl endpoint::Connection for ListenerConnection` name=on_outgoing_begin as=listener_on_outgoing_begin
 //@@ qmark
 //@@ ret Result<Frame, ConnectionInnerError>
-//@@ subst `.ok_or_else(|| { __E1 })` => `.ok_or(ConnectionInnerError::NotFound(None))` rule=R18
+//@@ subst `.ok_or_else(|| { __E1 })` => `.ok_or(ConnectionInnerError::NotFound(None))` rule=R18 unless `ok_or_else`
 //@@ subst `amqp::Frame` => `Frame` rule=optional-R11
 //@@ spec
     ensures
